@@ -28,9 +28,6 @@ PARTIAL = [
     "nongap() of a gap-free map and get_coordinates() with >= 2 gaps and a short residue tail: violated by the pinned code "
     "(nongap_refuted, get_coordinates_refuted); proved on the rest of the domain for all lengths (nongap_spec_partial, "
     "get_coordinates_spec_partial); the corrected methods only for strings of length <= 10 (listings_v2_bounded_partial)",
-    "FeatureMap covered(): theorem by complete enumeration for maps of <= 2 spans on parents of length <= 4 only "
-    "(covered_bounded_partial); inverse, shadow (non-overlapping maps), composition, slicing, gaps, without_gaps are proved "
-    "for all maps inside their parent",
     "FeatureMap nucleic_reversed and __mul__: the cell-by-cell statement is proved for forward maps; for maps with reversed "
     "spans only cell count and 'inside the parent' (the method discards strand, as documented)",
     "merge_maps: parent_length=None only; termini_unknown, tidy_start/tidy_end/value, serialisation: not modelled",
